@@ -83,23 +83,44 @@ def prove(pc, goal, timeout_ms=None, want_model=True, quick=False):
     if quantified and EMATCH_FIRST_MS:
         # quantified goals: a short pure E-matching attempt first (it either proves the goal quickly or
         # gives up; it never answers sat), then the default strategy
-        s0 = z3.Solver()
-        s0.set('timeout', max(EMATCH_FIRST_MS, timeout_ms))
-        s0.set('auto_config', False)
-        s0.set('smt.mbqi', False)
-        s0.add(*pc)
-        s0.add(z3.Not(goal))
-        t0 = time.time()
-        r0 = s0.check()
-        ms = (time.time() - t0) * 1000
-        stats['z3_ms'] += ms
-        if r0 == z3.unsat:
-            return 'proved', 'z3-ematching', ms, None
+        # (short budget under three random seeds first: nearly every E-matching proof takes milliseconds,
+        # and whether it is found depends on the instantiation order)
+        for seed in (0, 7, 13):
+            s0 = z3.Solver()
+            s0.set('timeout', max(EMATCH_FIRST_MS, min(5000, timeout_ms)))
+            s0.set('auto_config', False)
+            s0.set('smt.mbqi', False)
+            if seed:
+                s0.set('random_seed', seed)
+                s0.set('smt.random_seed', seed)
+            s0.add(*pc)
+            s0.add(z3.Not(goal))
+            t0 = time.time()
+            r0 = s0.check()
+            ms0 = (time.time() - t0) * 1000
+            ms += ms0
+            stats['z3_ms'] += ms0
+            if r0 == z3.unsat:
+                return 'proved', 'z3-ematching', ms, None
+            if ms0 < 50 and seed == 0 and False:
+                break
     s = z3.Solver()
     s.set('timeout', timeout_ms)
     s.add(*pc)
     s.add(z3.Not(goal))
     stats['z3_queries'] += 1
+    tried_cli = False
+    if quantified and EMATCH_FIRST_MS and ms > 2500:
+        # the short E-matching attempts ran into their time limit: before the long default strategy,
+        # ask the Debian z3 (4.8.12), which decides many quantified string queries the 5.1 wheel leaves open
+        tried_cli = True
+        try:
+            v0, ms0, _ = run_z3cli(s.to_smt2(), timeout_s=15)
+        except Exception:
+            v0, ms0 = 'error', 0.0
+        ms += ms0
+        if v0 == 'unsat':
+            return 'proved', 'z3-4.8-cli', ms, None
     t0 = time.time()
     r = s.check()
     ms1 = (time.time() - t0) * 1000
@@ -127,6 +148,25 @@ def prove(pc, goal, timeout_ms=None, want_model=True, quick=False):
                 return 'proved', 'z3', ms, None
             if rk == z3.sat:
                 return 'refuted', 'z3', ms, (sk.model() if want_model else None)
+    # still unknown: the E-matching attempt again under other random seeds (instantiation order is
+    # seed dependent; it can only prove, never refute)
+    if quantified and EMATCH_FIRST_MS and timeout_ms > 5000:
+        for seed in (0, 29):
+            se = z3.Solver()
+            se.set('timeout', timeout_ms)
+            se.set('auto_config', False)
+            se.set('smt.mbqi', False)
+            se.set('random_seed', seed)
+            se.set('smt.random_seed', seed)
+            se.add(*pc)
+            se.add(z3.Not(goal))
+            t1 = time.time()
+            re_ = se.check()
+            mse = (time.time() - t1) * 1000
+            stats['z3_ms'] += mse
+            ms += mse
+            if re_ == z3.unsat:
+                return 'proved', 'z3-ematching', ms, None
     # unknown: second z3 strategy, pure E-matching (no model-based quantifier instantiation)
     if quantified and not EMATCH_FIRST_MS:
         s2 = z3.Solver()
@@ -152,6 +192,12 @@ def prove(pc, goal, timeout_ms=None, want_model=True, quick=False):
         os.makedirs(os.environ['PYVC_DUMP'], exist_ok=True)
         with open(os.path.join(os.environ['PYVC_DUMP'], 'q%d.smt2' % stats['z3_queries']), 'w') as f:
             f.write(smt2)
+    # the Debian z3 (4.8.12) decides many quantified string queries that the 5.1 wheel leaves open
+    if not tried_cli:
+        v0, ms0, _ = run_z3cli(smt2)
+        if v0 == 'unsat':
+            return 'proved', 'z3-4.8-cli', ms + ms0, None
+        ms += ms0
     v, ms2, out = run_cvc5(smt2)
     if v == 'unsat':
         return 'proved', 'cvc5', ms + ms2, None
@@ -169,6 +215,27 @@ def candidate(pc, goal, timeout_ms=3000):
     if s.check() == z3.sat:
         return s.model()
     return None
+
+
+def run_z3cli(smt2_text, timeout_s=20):
+    exe = '/usr/bin/z3'
+    if not os.path.exists(exe):
+        return 'absent', 0.0, ''
+    with tempfile.NamedTemporaryFile('w', suffix='.smt2', delete=False) as f:
+        f.write(smt2_text)
+        path = f.name
+    stats['z3cli_queries'] = stats.get('z3cli_queries', 0) + 1
+    t0 = time.time()
+    try:
+        p = subprocess.run([exe, '-T:%d' % timeout_s, path], capture_output=True, text=True, timeout=timeout_s + 5)
+        out = (p.stdout or '').strip()
+    except subprocess.TimeoutExpired:
+        out = 'timeout'
+    finally:
+        os.unlink(path)
+    ms = (time.time() - t0) * 1000
+    first = out.splitlines()[0] if out else ''
+    return (first if first in ('sat', 'unsat', 'unknown') else 'error:' + first[:60]), ms, out
 
 
 def run_cvc5(smt2_text, timeout_s=None):
